@@ -55,8 +55,7 @@ fn configs(max_nodes: usize) -> Vec<(Vec<usize>, Variant)> {
 }
 
 pub fn subs(tier: Tier) -> Vec<Sub> {
-    let _ = tier;
-    let (nodes, len) = (5usize, 6u32);
+    let (nodes, len) = (5usize, tier.pick(6u32, 8u32));
     let cfgs = configs(nodes);
     let ncfg = cfgs.len() as u64;
     let nseq = 3u64.pow(len);
